@@ -205,6 +205,49 @@ MUTATIONS=(
 "any-legal-returns-false|FAIL|$BOARD|/pub fn is_any_move_legal(&mut self, moves: &\[Move\]) -> bool/,/^    }/s/                return true;/                return false;/"
 "any-legal-default-true|FAIL|$BOARD|/pub fn is_any_move_legal(&mut self, moves: &\[Move\]) -> bool/,/^    }/s/^        false$/        true/"
 "any-legal-HARMLESS-rename|PASS|$BOARD|/pub fn is_any_move_legal(&mut self, moves: &\[Move\]) -> bool/,/^    }/s/\bmv\b/candidate/g"
+# ---- FEN decoder (C12; modules FenText / FenDecode, Props/Translated/FenDecode.lean)
+"fen-decode-file-rank-swapped|FAIL|$BOARD|s/square_mask_from_index(file_index, rank_index as u32)/square_mask_from_index(rank_index as u32, file_index)/"
+"fen-decode-upper-case-is-black|FAIL|$BOARD|s/let board = if c.is_uppercase() { \&mut white } else { \&mut black };/let board = if c.is_uppercase() { \&mut black } else { \&mut white };/"
+"fen-decode-knight-letter-places-bishop|FAIL|$BOARD|s/'n' => board.knights_ref(),/'n' => board.bishops_ref(),/"
+"fen-decode-file-not-advanced|FAIL|$BOARD|s/^                    file_index += 1;$//"
+"fen-decode-digit-advances-one|FAIL|$BOARD|s/file_index += c.to_digit(10).unwrap();/file_index += 1;/"
+"fen-decode-castle-Q-reads-K|FAIL|$BOARD|s/white.queen_side_castle = self.get_castling_availability().contains('Q');/white.queen_side_castle = self.get_castling_availability().contains('K');/"
+"fen-decode-turn-swapped|FAIL|$BOARD|s/\"b\" => BLACK,/\"b\" => WHITE,/"
+"fen-decode-ep-dash-test|FAIL|$BOARD|s/if self.get_en_passant_target_square() == \"-\" { NO_SQUARE }/if self.get_en_passant_target_square() == \"x\" { NO_SQUARE }/"
+"fen-decode-clocks-swapped|FAIL|$BOARD|s/fullmove_clock: fen.parse_fullmove_clock(),/fullmove_clock: fen.parse_halfmove_clock(),/"
+"fen-decode-UNSUPPORTED-borrow-used-later|FAIL|$BOARD|s/^                    file_index += 1;$/                    file_index += 1; white.king_side_castle = false;/"
+"fen-decode-HARMLESS-rename-local|PASS|$BOARD|s/file_index/fidx/g"
+"fen-decode-HARMLESS-unwrap-expect|PASS|$BOARD|s/let pieces = match c.to_ascii_lowercase() {/let pieces = match (c.to_ascii_lowercase()) {/"
+"fen-square-rank-from-7|FAIL|$CONSTS|s/let rank_index = 8 - second_char.to_digit(10)/let rank_index = 7 - second_char.to_digit(10)/"
+"fen-square-file-from-b|FAIL|$CONSTS|s/(first_char as u8 - b'a') as u32/(first_char as u8 - b'b') as u32/"
+"fen-square-mask-shift-plus-one|FAIL|$CONSTS|/pub const fn square_mask_from_index/,/^}/s/1 << square_shift_from_index(file_index, rank_index)/1 << (square_shift_from_index(file_index, rank_index) + 1)/"
+"fen-square-HARMLESS-assert-message|PASS|$CONSTS|s/\"Illegal string length for square {}\"/\"bad square {}\"/"
+"fen-getter-halfmove-default-1|FAIL|$FEN|s/self.halfmove_clock.as_ref().map_or(\"0\"/self.halfmove_clock.as_ref().map_or(\"1\"/"
+"fen-getter-color-reads-castling-range|FAIL|$FEN|s/\&self.fen\[self.active_color.start..self.active_color.end\]/\&self.fen[self.castling_availability.start..self.castling_availability.end]/"
+# ---- Fen::from_str without the regex (C12; module FenFromStr, Props/Translated/FenFromStr.lean)
+"fen-fromstr-no-clock-check|FAIL|$FEN|s/if fen\[range.start..range.end\].parse::<u32>().is_err() {/if false {/"
+"fen-fromstr-clock-groups-4-5|FAIL|$FEN|s/for clock_group in \[5, 6\] {/for clock_group in [4, 5] {/"
+"fen-fromstr-groups-swapped|FAIL|$FEN|s/active_color: group_to_slice(2).unwrap(),/active_color: group_to_slice(3).unwrap(),/"
+"fen-fromstr-validates-group-2|FAIL|$FEN|s/Self::validate_ranks(group_to_slice(1)/Self::validate_ranks(group_to_slice(2)/"
+"fen-validate-ranks-find-ok|FAIL|$FEN|s/.find(Result::is_err)/.find(Result::is_ok)/"
+"fen-fromstr-alias-other-word|FAIL|$FEN|s/if s == \"startpos\" {/if s == \"start\" {/"
+"fen-fromstr-UNSUPPORTED-closure-captures-mut|FAIL|$FEN|s/let temp_fen = fen.clone();/let temp_fen = fen.clone(); let mut n = 0; let bump = |k: usize| { n += k; };/"
+"fen-fromstr-HARMLESS-rename-local|PASS|$FEN|s/temp_fen/scratch/g"
+"fen-fromstr-HARMLESS-closure-param|PASS|$FEN|s/match_index/gi/g"
+# ---- FEN writer: get_colored_piece (C12; module FenWrite, Props/Translated/FenWrite.lean)
+"fen-write-white-piece-gets-black-letter|FAIL|$BOARD|s/(Some(piece), None) => Some(piece.to_white()),/(Some(piece), None) => Some(piece.to_black()),/"
+"fen-write-both-colours-no-panic|FAIL|$BOARD|s/(Some(_), Some(_)) => panic!(),/(Some(_), Some(_)) => None,/"
+"fen-write-find-piece-index-plus-one|FAIL|$BOARD|s/Piece::from_index(self.get_piece_const_by_square_mask(square) as usize)/Piece::from_index(self.get_piece_const_by_square_mask(square) as usize + 1)/"
+"fen-write-HARMLESS-rename-local|PASS|$BOARD|s/maybe_white/found_white/g"
+# ---- FEN writer loops and fields (rs_for_2 / rs_for_1 / rs_fen_write_eq / rs_fen_roundtrip)
+"fen-writer-empty-run-not-reset|FAIL|$BOARD|/fn from(bitboard: &Bitboard) -> Self {/,/^    }/s/^                        consecutive_empty = 0;$//"
+"fen-writer-no-trailing-run|FAIL|$BOARD|/fn from(bitboard: &Bitboard) -> Self {/,/^    }/s/^            if consecutive_empty > 0 {$/            if consecutive_empty > 8 {/"
+"fen-writer-slash-after-last-rank|FAIL|$BOARD|s/            if rank < 7 {/            if rank < 8 {/"
+"fen-writer-file-rank-swapped|FAIL|$BOARD|s/let square = Square::from_indices(file, rank).unwrap();/let square = Square::from_indices(rank, file).unwrap();/"
+"fen-writer-castle-order-QK|FAIL|$BOARD|/let castle = \[/,/collect::<String>/{s/('K', bitboard.white.king_side_castle),/('Q', bitboard.white.queen_side_castle),/;t;s/('Q', bitboard.white.queen_side_castle),/('K', bitboard.white.king_side_castle),/}"
+"fen-writer-clocks-swapped|FAIL|$BOARD|s/result.push_str(&bitboard.halfmove_clock.to_string());/result.push_str(\&bitboard.fullmove_clock.to_string());/"
+"fen-writer-side-swapped|FAIL|$BOARD|s/result.push(if bitboard.is_white_turn() { 'w' } else { 'b' });/result.push(if bitboard.is_white_turn() { 'b' } else { 'w' });/"
+"fen-writer-HARMLESS-rename-local|PASS|$BOARD|s/consecutive_empty/run/g"
 )
 
 ok=0; bad=0
